@@ -476,7 +476,24 @@ def contract_call(ex, c, fi, recv, pos, kw, st, fr):
         raise Unsupported(f'contract of {c.qual} has no modifies clause, cannot be used at a call site')
     hv_view = post.fork()
     hv_view.loc = dict(args)
+    tr_before = {k: v for k, v in post.heap.maps.items() if k.startswith('$tr')}
     ex.havoc_heap(post, c.modifies, cfr, hv_view)
+    if any(m.strip() == '$trace' for m in c.modifies):
+        # the ghost trace only grows: what was recorded before the call is still there afterwards
+        n0 = tr_before.get('$trlen', z3.Int('h:$trlen'))
+        n1 = post.heap.maps['$trlen']
+        post.assume(n1 >= n0)
+        i = z3.Int('trf_i')
+        for key, newarr in post.heap.maps.items():
+            if not key.startswith('$tr.'):
+                continue
+            oldarr = tr_before.get(key)
+            if oldarr is None:
+                oldarr = z3.Const(f'h:{key}', newarr.sort())
+            if sym.BOUND is None:
+                post.assume(z3.ForAll([i], z3.Implies(z3.And(0 <= i, i < n0), newarr[i] == oldarr[i]), patterns=[newarr[i]]))
+            else:
+                post.assume(*[z3.Implies(n0 > c_, newarr[c_] == oldarr[c_]) for c_ in range(2 * sym.BOUND + 4)])
     # allocation only grows
     r = z3.Const('cc_r', Ref)
     if sym.BOUND is None:
@@ -797,6 +814,12 @@ def call_module(ex, name, pos, kw, st, fr, e):
     lib = ex.specs.library_call(ex, name, pos, kw, st, fr)
     if lib is not None:
         return lib
+    if name.split('.')[0] in ('math', 'np', 'operator') and all(isinstance(v, V) and v.kind in ('int', 'real', 'bool')
+                                                                  for v in list(pos) + list(kw.values())):
+        # a numeric library function without a contract: its result is an arbitrary value (any property
+        # that depends on it then has to hold for every possible result)
+        ex.notes.add(f'library function {name} has no contract: result treated as arbitrary')
+        return [(V(T_DYN), st)]
     raise Unsupported(f'library call {name}')
 
 
